@@ -198,9 +198,9 @@ fn main() {
                             opt::write_case(&run, &mut cf);
                             let (findings, st) = opt::monitor(&run);
                             rep.push(format!(
-                                "M {} | outcome={} calls={} steps={} accepts={} rejects={} none={} clamped={} boundary={} loops={} early={} amb={}",
+                                "M {} | outcome={} calls={} steps={} accepts={} rejects={} none={} clamped={} boundary={} loops={} early={} amb={} desync={}",
                                 l, run.outcome.split(' ').next().unwrap_or(""), run.calls.len(), st.steps, st.accepts, st.rejects,
-                                st.none_scores, st.clamped, st.boundary_decisions, st.loops, st.converged_early, st.ambiguous_end
+                                st.none_scores, st.clamped, st.boundary_decisions, st.loops, st.converged_early, st.ambiguous_end, st.stream_desync
                             ));
                             for f in findings {
                                 rep.push(format!("FINDING {} | {} | {}", f.property, l, f.what));
